@@ -102,7 +102,7 @@ pub enum Tier {
     Thorough,
 }
 
-pub trait Check: Sync {
+pub trait Check: Sync + Send {
     fn id(&self) -> &'static str;
     fn rule(&self) -> String;
     fn assumptions(&self) -> Vec<String> { vec![] }
@@ -116,6 +116,8 @@ pub trait Check: Sync {
     fn extra(&self, _tier: Tier, _stats: &mut Stats, _known: &dyn Fn(&str) -> bool, _threads: usize) -> Result<Value, Failure> {
         Ok(json!({}))
     }
+    /// Replay a raw fuzzer input (`kind` = "rawtext" | "rawscript"); None = not supported.
+    fn replay_raw(&self, _kind: &str, _data: &[u8]) -> Option<Result<(), Failure>> { None }
 }
 
 #[derive(Default)]
@@ -475,6 +477,32 @@ fn read_replay(path: &str) -> Option<(String, Vec<u16>, String)> {
 
 pub fn replay_file(chk: &dyn Check, path: &str, verbose: bool) -> i32 {
     install_panic_hook();
+    for kind in ["rawtext", "rawscript"] {
+        if path.ends_with(&format!(".{}", kind)) {
+            let data = match std::fs::read(path) {
+                Ok(d) => d,
+                Err(_) => {
+                    eprintln!("cannot read {}", path);
+                    return 2;
+                }
+            };
+            return match chk.replay_raw(kind, &data) {
+                None => {
+                    eprintln!("{} does not replay raw {} inputs", chk.id(), kind);
+                    2
+                }
+                Some(Ok(())) => {
+                    println!("replay passes: property={} file={}", chk.id(), path);
+                    0
+                }
+                Some(Err(fl)) => {
+                    println!("FAIL [{}] sig={} :: {}", kind, fl.sig, fl.msg);
+                    println!("VIOLATION property={} replay={}", chk.id(), path);
+                    1
+                }
+            };
+        }
+    }
     let (lane, choices, _) = match read_replay(path) {
         Some(x) => x,
         None => {
@@ -550,4 +578,44 @@ fn write_evidence(chk: &dyn Check, cfg: &RunCfg, st: &Stats, t0: Instant, violat
     });
     let path = format!("{}/{}.json", dir, chk.id());
     let _ = std::fs::write(&path, serde_json::to_string_pretty(&v).unwrap());
+}
+
+/// Convert a libFuzzer input of the `case` target into a replay file; returns exit code.
+pub fn from_fuzz_input(chk: &dyn Check, cfg: &RunCfg, path: &str) -> i32 {
+    install_panic_hook();
+    let data = match std::fs::read(path) {
+        Ok(d) => d,
+        Err(_) => return 2,
+    };
+    if data.is_empty() {
+        return 2;
+    }
+    let lanes: Vec<&'static str> = chk.lanes(Tier::Quick).into_iter().map(|l| l.0).filter(|l| *l != "big").collect();
+    let lane = lanes[data[0] as usize % lanes.len()];
+    let v: Vec<u16> = data[1..].chunks(2).map(|p| u16::from_le_bytes([p[0], *p.get(1).unwrap_or(&0)])).collect();
+    let known = load_known(&format!("{}/known_findings.json", cfg.verif_dir));
+    let open: HashSet<String> = known.iter().filter(|k| k.property == chk.id() && k.status == "open").map(|k| k.signature.clone()).collect();
+    let mut src = Src::new(&v);
+    let mut rep = Report::default();
+    match guard("case", || chk.run_case(lane, &mut src, &mut rep)).and_then(|x| x) {
+        Ok(()) => {
+            println!("fuzzer input does not reproduce a failure: {}", path);
+            2
+        }
+        Err(fl) if open.contains(&fl.sig) => {
+            println!("KNOWN-FINDING: property={} {}", chk.id(), fl.sig);
+            0
+        }
+        Err(fl) if fl.sig == "harness-panic" => {
+            eprintln!("{}", fl.msg);
+            2
+        }
+        Err(fl) => {
+            let out = write_replay(cfg, chk.id(), lane, &v, &fl, &rep.desc);
+            println!("FAIL [{}] sig={} :: {}", lane, fl.sig, fl.msg);
+            println!("case: {}", rep.desc);
+            println!("VIOLATION property={} replay={}", chk.id(), out);
+            1
+        }
+    }
 }
